@@ -293,7 +293,7 @@ pub fn run_params(p: &P, seed: u64) -> RunOut {
         cfg.max_packet_size = NonZeroUsize::new(p.mps).unwrap();
     }
     let own = SimId::new(OWN_ADDR, 1);
-    let mut d = Driver::new(Setup { id: own, cfg, codec: CodecKind::Wire, policy: Policy { renew: RenewMode::Never, mask: 0, var_ids: false }, hcfg: HandlerCfg::default_cfg(), rng_seed: p.rng_seed });
+    let mut d = Driver::new(Setup { id: own, cfg, codec: CodecKind::Wire, policy: Policy { renew: RenewMode::Never, mask: 0, var_ids: false }, hcfg: HandlerCfg::default_cfg(), rng_seed: p.rng_seed, acc_twin: false });
     let members: Vec<Member<SimId>> = (0..p.members).map(|i| Member::alive(SimId::new(2 + i as u16, 1))).collect();
     d.step(Input::ApplyMany(members, true));
     let mut s = Stream::new(seed, "c12-script");
